@@ -374,7 +374,56 @@ def expected_blocks(lib, kind, result):
     return [canon(b) for b in out]
 
 
+class SameKey(BlockMiddleware):
+    """In-place probe: gives every entry the same key (keys that collide only after the middleware ran)."""
+
+    def __init__(self, inplace):
+        super().__init__(allow_inplace_modification=inplace)
+
+    def transform_entry(self, entry, library):
+        entry.key = "same"
+        return entry
+
+
+def check_key_collision(acc):
+    from bibtexparser.model import DuplicateBlockKeyBlock
+
+    doc = "@a{K1, x = {1}}\n@string{s = {v}}\n@b{K2, y = {2}}\ncomment\n@c{K3, z = {3}}\n"
+    for inplace in (True, False):
+        for route in ("transform", "parse_string", "write_string"):
+            case = {"key_collision": route, "inplace": inplace}
+            acc.trace()
+            acc.case(nontrivial_key=("collision", route, inplace))
+            try:
+                if route == "transform":
+                    lib = SameKey(inplace).transform(Splitter(doc).split())
+                elif route == "parse_string":
+                    lib = bibtexparser.parse_string(doc, parse_stack=[SameKey(inplace)])
+                else:
+                    text = bibtexparser.write_string(Splitter(doc).split(), unparse_stack=[SameKey(inplace)])
+                    lib = None
+            except Exception as ex:
+                acc.violation({"oracle": "block_result_protocol", "result": "colliding keys", "expected_kind": "blocks"}, {"case": case, "observed": repr(ex), "expected": "a library"})
+                continue
+            if lib is not None:
+                kinds = [type(b).__name__ for b in lib.blocks]
+                ok = kinds == ["Entry", "String", "DuplicateBlockKeyBlock", "ImplicitComment", "DuplicateBlockKeyBlock"] and sorted(lib.entries_dict) == ["same"] and lib.entries_dict["same"] is lib.blocks[0]
+                if ok:
+                    ok = all(b.previous_block is lib.blocks[0] and b.key == "same" for b in lib.blocks if isinstance(b, DuplicateBlockKeyBlock))
+                obs = kinds + sorted(lib.entries_dict)
+            else:
+                ok = text.count("@a{same,") == 1 and "% WARNING" in text and text.count("WARNING") == 2
+                obs = text
+            acc.step(("collision", route), inplace, "ok" if ok else "bad")
+            if not ok:
+                acc.violation(
+                    {"oracle": "block_result_protocol", "result": "colliding keys", "expected_kind": "first live, later flagged"},
+                    {"case": case, "observed": obs, "expected": "Entry, String, DuplicateBlockKeyBlock, ImplicitComment, DuplicateBlockKeyBlock; entries_dict == {same: first}"},
+                )
+
+
 def check_protocol(acc):
+    check_key_collision(acc)
     for kind in KINDS:
         for result, (fn, eff) in RESULTS.items():
             for route in ("transform", "parse_string", "write_string"):
